@@ -47,6 +47,19 @@ def cases(tier):
                                         {"kind": "own", "sub": "p0", "level": lP, "label": "R"}])
         out.append({"id": f"envelope-all/E0-{lF}{lP}/dest1", "kind": "env", "world": w, "targets": [], "entry": "envelope0",
                     "sep": False, "dest": True})
+    # concrete, genuinely mixed and entangled density matrices: these go through the unconditional contract() of
+    # Envelope.measure / ProductState (numeric eigh), which is cut for symbolic contents
+    for order in ("FP", "PF"):
+        w = cm.world(cm.subs(1, 0, 2), [{"kind": "env", "env": "e0", "order": order, "level": "M", "concrete": "mixed"}])
+        for t in ("f0", "p0"):
+            for dest in (True, False):
+                out.append({"id": f"concrete/E1-{order}-M/{t}/sep1-dest{int(dest)}", "kind": "env", "world": w, "targets": [t],
+                            "entry": "envelope", "sep": True, "dest": dest})
+    wps = cm.world(cm.subs(2, 1, 2, 2), [{"kind": "ps", "ce": 0, "members": ["c0", "p1", "p0"], "level": "M", "concrete": "mixed"}],
+                   [["e0", "e1", "c0"]])
+    for tg in (["p1"], ["c0", "p0"]):
+        out.append({"id": f"concrete/ps[c0,p1,p0]-M/{','.join(tg)}/sep1-dest0", "kind": "multi", "world": wps, "targets": tg,
+                    "entry": "composite", "sep": True, "dest": False})
     S = cm.subs(2, 1, 2, 2)
     comp = [["e0", "e1", "c0"]]
     multi = [("ps[p1,c0,p0]-V", cm.world(S, [{"kind": "ps", "ce": 0, "members": ["p1", "c0", "p0"], "level": "V"}], comp)),
